@@ -911,6 +911,55 @@ func checkSumCopy(e *Env, r *cliRunner, c *CliCase) {
 			return
 		}
 	}
+	if c.Deviate == nil && !c.Cmd.HasFrom && !c.Cmd.HasUntil && res.built != nil && c.SchedSeed%3 == 0 {
+		// the same command value executed again later: with the default window a
+		// point that reached the sources meanwhile is part of the sum to store
+		step0 := c.Cmd.Create.Archs[0].S
+		Advance(e, step0+int64(c.SchedSeed%5))
+		now2 := Now()
+		for _, it := range items {
+			db, err := wt.Open(files[it][0], wt.WithoutFlock())
+			if err != nil {
+				return
+			}
+			db.UpdatePointsForArchive([]wt.Point{{Time: wt.Timestamp(now2), Value: 4242.5}}, 0, wt.Timestamp(now2))
+			db.Sync()
+			db.Close()
+		}
+		res3 := r.rerun(res, "sumcopy3")
+		if len(res3.panics) > 0 || res3.aborted {
+			return
+		}
+		if res3.err != nil {
+			e.Violate("C11.sum-copy-fails", "executing the same sum-copy command value again %d s later failed: %v", now2-now, res3.err)
+			return
+		}
+		from2, until2 := c.Cmd.window(now2)
+		for _, it := range items {
+			exp, _, err := expectedSum(files[it], from2, until2, now2)
+			if err != nil {
+				return
+			}
+			dv, err := viewFile(filepath.Join(e.Dir, "dst", it, c.Cmd.Dest), from2, until2, now2)
+			if err != nil {
+				return
+			}
+			for _, a := range sel {
+				if a >= len(exp) || a >= len(dv.series) || exp[a] == nil || dv.series[a] == nil || len(exp[a].vals) != len(dv.series[a].vals) {
+					continue
+				}
+				for i, v := range exp[a].vals {
+					if d := dv.series[a].vals[i]; !(model.SameValue(d, v) || d == v) {
+						e.Violate("C11.equal", "item %s archive %d slot %s: the same command value executed again %d s later (default window): the sum of %d files is %v, the destination holds %v",
+							it, a, relAge(now2, exp[a].from+int64(i)*exp[a].step), now2-now, len(files[it]), v, d)
+						return
+					}
+				}
+			}
+		}
+		e.Probe("command-value-executed-again-later")
+		return
+	}
 	// deliberate deviation written through the library
 	if c.Deviate == nil || c.DevArch < 0 || c.DevArch >= n {
 		return
@@ -1231,6 +1280,35 @@ func checkGenerate(e *Env, r *cliRunner, c *CliCase) {
 	dp := filepath.Join(e.Dir, "dst", c.Cmd.Dest)
 	os.MkdirAll(filepath.Dir(dp), 0o755)
 	before := readFile(dp)
+	if c.EnvFault == "dest-race" && c.Race != nil {
+		// two generate commands race for the same new destination; the first is
+		// parked at a seeded statement while the second runs
+		rs := r.run([]Cmd{c.Cmd, *c.Race}, []string{"gen", "race"})
+		for _, x := range rs {
+			if foreignPanic(e, x) {
+				return
+			}
+		}
+		ok0, ok1 := rs[0].err == nil, rs[1].err == nil
+		switch {
+		case ok0 && ok1:
+			e.Violate("C20.no-overwrite", "two generate commands racing for the same new destination both reported success: one of them replaced the file the other had created")
+		case ok0 || ok1:
+			w := *c
+			if ok1 {
+				w.Cmd = *c.Race
+			}
+			checkGenerateAt(e, &w, dp, rs[0].now)
+			if e.Viol != nil {
+				e.Viol.Message = "two generate commands raced for the destination, one was refused; the file left by the other: " + e.Viol.Message
+				return
+			}
+			e.Probe("racing-creator-refused")
+		default:
+			e.Note("racing-creators-both-refused")
+		}
+		return
+	}
 	res := r.run1(c.Cmd, "gen")
 	if foreignPanic(e, res) {
 		return
@@ -1279,6 +1357,32 @@ func checkGenerate(e *Env, r *cliRunner, c *CliCase) {
 		return
 	}
 	checkGenerateAt(e, c, dp, now)
+	if e.Failed() || c.Tick != nil || !c.Cmd.Fill || c.SchedSeed%3 != 2 {
+		return
+	}
+	// the same command value executed again later for another destination must
+	// generate for the new instant
+	gc, ok := res.built.(*cmd.GenerateCommand)
+	if !ok {
+		return
+	}
+	Advance(e, c.Cmd.Create.Archs[0].S*2+int64(c.SchedSeed%5))
+	dp2 := filepath.Join(e.Dir, "dst", "g", "second.wsp")
+	gc.Dest = dp2
+	res2 := r.rerun(res, "gen2")
+	if res2.aborted || len(res2.panics) > 0 {
+		return
+	}
+	if res2.err != nil {
+		e.Violate("C20.generate-fails", "executing the same generate command value again for another destination failed: %v", res2.err)
+		return
+	}
+	checkGenerateAt(e, c, dp2, res2.now)
+	if e.Viol != nil {
+		e.Viol.Message = "the same command value executed again " + fmt.Sprint(res2.now-now) + " s later for a second destination: " + e.Viol.Message
+		return
+	}
+	e.Probe("command-value-executed-again-later")
 }
 
 func checkGenerateAt(e *Env, c *CliCase, dp string, now int64) {
